@@ -59,7 +59,8 @@ pub fn binary_crosscheck(sup: &mut Sup, judge_exit: bool) {
         n += 1;
         let stderr = String::from_utf8_lossy(&out.stderr).to_string();
         if out.timed_out {
-            sup.infra_errors.push("binary cross-check case timed out (30 s)".to_string());
+            // inconclusive (a loaded machine, or a legitimately expensive case): counted, not judged
+            *sup.notes.entry("binary_crosscheck_timeouts".to_string()).or_insert(0) += 1;
             continue;
         }
         if judge_exit && (out.status != Some(0) || stderr.contains("panicked at")) {
